@@ -3,7 +3,7 @@ from __future__ import annotations
 
 from ..paths import Config, probe
 
-CFG = Config(watch=frozenset({"_plan_stage", "_collect_start_messages", "_cancel_deferred_choice_siblings"}), ctx_keys=frozenset({"_join_fired"}), muted=frozenset({"except"}))
+CFG = Config(watch=frozenset({"_plan_stage", "_collect_start_messages", "_cancel_deferred_choice_siblings"}), ctx_keys=frozenset({"_join_fired"}), guards=frozenset({"stage.mutex_key", "stage.deferred_choice_group"}), muted=frozenset({"except"}))
 MOD = "stabilize.handlers.start_stage.handler"
 
 
